@@ -587,6 +587,14 @@ def check_separators(ctx):
     rt = U(expand(r1[-1].value, Defs(mc.body))).replace(' ', '') if r1 else ''
     # a view of the tree kept on the object: `self.X = <expr of self.tree>` stored once, in the constructor, after self.tree
     m_ = re.fullmatch(r'list\(self\.(\w+)((?:\.nodes(?:\(\))?)?)\)', rt)
+    bare_ = re.fullmatch(r'self\.(\w+)', rt)
+    if bare_ and bare_.group(1) != 'tree':
+        # the stored list itself is handed out: GraphicalModel keeps it as `cliques`, callers may use it as a work list - every change to it
+        # changes what the next maximal_cliques() / neighbors() call reports
+        ctx.ob('cliques-of-triangulation', mc, r1[-1], False,
+               'maximal_cliques returns `%s`, a list kept on the tree, without copying it: a caller that modifies the list it was given (pops it as a '
+               'work list, appends to model.cliques) changes the tree\'s own record of its cliques' % rt, construct='ownership of the list of maximal cliques')
+        m_ = re.fullmatch(r'list\(self\.(\w+)((?:\.nodes(?:\(\))?)?)\)', 'list(%s)' % rt)
     if m_ and m_.group(1) != 'tree':
         stores = []
         for q_, f_ in mc.module.funcs.items():
@@ -605,6 +613,8 @@ def check_separators(ctx):
             pos_ = [i_ for i_, s_ in enumerate(init_.body) if U(s_) == U(stores[0][1])]
             if pos_ and pos_[0] > tree_store[-1]:
                 rt = 'list(%s%s)' % (U(stores[0][1].value).replace(' ', ''), m_.group(2))
+                while re.fullmatch(r'list\(list\(.*\)\)', rt):
+                    rt = rt[5:-1]                  # list(list(X)) is list(X)
     # a depth-first PREORDER of the tree: every clique is listed after its tree parent (GraphicalModel.mle divides a clique's marginal by
     # the separator marginal shared with a clique listed earlier).  dfs_tree without a source adds all nodes first: insertion order.
     pre = re.fullmatch(r'list\(nx\.dfs_preorder_nodes\(self\.tree(,.+)?\)\)', rt) is not None or \
